@@ -91,7 +91,8 @@ HWalkCase(p) ==
   [mem |-> HWalkImage(p), al |-> 0,
    calls |-> <<[op |-> "hload"], [op |-> "htags", it |-> 0], [op |-> "next", it |-> 0], [op |-> "clone", it |-> 0, to |-> 1]>>
              \o <<[op |-> "last", it |-> 0], [op |-> "count", it |-> 0], [op |-> "clone", it |-> 0, to |-> 3], [op |-> "nth", it |-> 3, n |-> 1],
-                  [op |-> "nth", it |-> 3, n |-> 2], [op |-> "next", it |-> 3]>>
+                  [op |-> "nth", it |-> 3, n |-> 2], [op |-> "next", it |-> 3],
+                  [op |-> "htags", it |-> 4], [op |-> "nth", it |-> 4, n |-> 7], [op |-> "next", it |-> 4], [op |-> "count", it |-> 4]>>
              \o Rep([op |-> "next", it |-> 0], n) \o Rep([op |-> "next", it |-> 1], n)
              \o <<[op |-> "hget", kind |-> "info_req"], [op |-> "hfield", kind |-> "info_req", f |-> "requests"],
                   [op |-> "hget", kind |-> "entry"], [op |-> "hget", kind |-> "module_align"],
